@@ -114,6 +114,7 @@ func runXferJob(t *testing.T, j *Job, r *evid.Run, oracle oracleFn) *JobRes {
 	}
 	root := e.Run(j.Prefix, nil, j.Bound, j.Lo, j.Hi, j.SkipRoot)
 	out.RootNOpts = root.NOpts
+	out.Roles = dedup(root.Roles)
 	if rr, ok := root.Res.(*XferRes); ok && rr != nil {
 		out.RootOut = outcomeOf(rr, dst)
 		out.Info = rr.Counts
